@@ -327,9 +327,12 @@ PROPS = {
     },
     "C14": {
         "level": "proof",
-        "lean_modules": ["CrabProofs.Props.C14"],
-        "components": [{"harness": f"h_arr_{d}", "source": "h_arr", "defines": [f"-DVDOM={d}"], "quick": 400,
-                        "thorough": 6000, "shards": 1, "corpus": "h_arr",
+        "lean_modules": ["CrabProofs.Props.C14", "CrabProofs.Props.C14Exact"],
+        # variant 1 (array_smashing<interval_domain>) is additionally compared op by op with the exact model
+        # CrabModel/Dom/ArraySmashItv.lean (-DXDUMP also dumps the summary variables)
+        "components": [{"harness": f"h_arr_{d}", "source": "h_arr", "defines": [f"-DVDOM={d}"] + (["-DXDUMP"] if d == 1 else []),
+                        "quick": 2000 if d == 1 else 400,
+                        "thorough": 40000 if d == 1 else 6000, "shards": 2 if d == 1 else 1, "corpus": "h_arr",
                         "nontrivial": lambda l: "(aload" in l or "(lcheck" in l,
                         "accept": lambda verdict, req, msg: "[C14]" in msg or verdict == "DRIFT"} for d in range(1, 9)],
         "rule": "operation histories over a pool of 3 abstract values, integer variables and 2 int arrays (uniform element size 4, sometimes 1 or 8; aligned constant and symbolic indices): numeric assign/assume/forget, array_init, weak/strong store (strong only where the client contract allows; illegal strong stores taint the value and are not judged), store_range, load, array_assign, join, widen, meet, copy, over array_smashing x {intervals, split_dbm, dis_intervals, flat_bool(sparse_dbm)} and array_adaptive x {intervals, split_dbm, term(intervals), flat_bool(intervals)} with the adaptive parameters drawn per history; the Lean driver replays each history on up to 48 witness states carrying their own arrays and checks every exported fact (in particular the loaded value) after every op; non-trivial = the history checks a load",
